@@ -362,9 +362,20 @@ def gen_phybo_case(rng):
     for ci in range(rng.randint(3, 6)):
         have = [x for x in langs if rng.random() > rng.choice([0.0, 0.2, 0.4])] or langs[:1]
         k = rng.randint(1, 3)
+        ids = [cog + j for j in range(k)]
+        if rows and rng.random() < 0.3:
+            ids[0] = rng.choice(rows)[3]          # a cognate set spanning two concepts
         for x in have:
-            rows.append((wid, x, ci, cog + rng.randrange(k)))
+            cid = rng.choice(ids)
+            rows.append((wid, x, ci, cid))
             wid += 1
+            r = rng.random()
+            if r < 0.2:                           # a synonym in the same cognate set: two reflexes
+                rows.append((wid, x, ci, cid))
+                wid += 1
+            elif r < 0.3:                         # a synonym in another cognate set of the concept
+                rows.append((wid, x, ci, rng.choice(ids)))
+                wid += 1
         cog += k
     seen = {r[1] for r in rows}
     for x in langs:                  # the tree's tips must be the wordlist's languages
@@ -379,6 +390,24 @@ def gen_phybo_case(rng):
                             "push": rng.random() < 0.5, "md": rng.choice([0, -1])},
             "topdown": {"r": rng.choice([1, 2, 3, 4]), "md": rng.choice([0, -1])},
             "singletons": rng.random() < 0.5}
+
+
+def derive_patterns(rows, taxa):
+    """Presence / absence / missing derived from the rows of the wordlist, independently of
+    Wordlist.get_paps: key "cogid:glid" (glid = 1-based rank of the concept among the sorted concept
+    names), 1 = the language has a reflex of that cognate set for that concept, -1 = it has no word for
+    the concept at all, 0 = it has a word for the concept but none in the set."""
+    concepts = sorted({"c%d" % r[2] for r in rows})
+    glid = {c: i + 1 for i, c in enumerate(concepts)}
+    words = {}
+    for _, lang, con, cid in rows:
+        words.setdefault(con, {}).setdefault(lang, set()).add(cid)
+    pats = {}
+    for con, by_lang in words.items():
+        for cid in {c for cs in by_lang.values() for c in cs}:
+            pats["%d:%d" % (cid, glid["c%d" % con])] = [
+                (1 if cid in by_lang[x] else 0) if x in by_lang else -1 for x in taxa]
+    return pats
 
 
 def phybo_newick(t):
@@ -420,7 +449,13 @@ def run_phybo(case):
 
             tree_read = rb(phy.tree)
             taxa = [name_id(x) for x in phy.taxa]
-            observed = {cog: list(phy.paps[cog]) for cog in phy.cogs}     # as built from the wordlist
+            derived = derive_patterns(case["rows"], taxa)
+            observed, coded_ok = {}, {}
+            for cog in phy.cogs:
+                if str(cog) not in derived:
+                    raise AssertionError("PhyBo has a cognate set %r that no row of the wordlist supports" % (cog,))
+                observed[cog] = derived[str(cog)]                   # what a scenario must reproduce
+                coded_ok[cog] = list(phy.paps[cog]) == observed[cog]  # get_paps coded the rows as 1/0/-1
             calls = case.get("calls") or [(m, case[m]) for m in ("weighted", "restriction", "topdown")]
             seen_topdown = False
             for mode, cfg in calls:
@@ -446,7 +481,7 @@ def run_phybo(case):
                     if noo != sum(e for _, e in gls):
                         raise AssertionError("number of origins is not the number of gains")
                     items.append({"mode": mode, "cfg": dict(cfg), "cog": str(cog), "paps": before[cog],
-                                  "obs": observed[cog], "exact": exact,
+                                  "obs": observed[cog], "coded_ok": coded_ok[cog], "exact": exact,
                                   "out": [(name_id(a), int(b)) for a, b in gls]})
         return {"tree": tree_read, "taxa": taxa, "items": items, "out": [x for it in items for x in it["out"]]}
     finally:
@@ -494,7 +529,7 @@ def render_phybo(case, res):
             m = "(GTopDown %s)" % L.z(cfg["r"])
         items.append(L.record("phybo_item", [
             m, L.z(cfg.get("gpl", 1)), L.b(cfg.get("push", True)), L.z(cfg["md"]), L.zlist(it["paps"]),
-            L.zlist(it["obs"]), L.b(it["exact"]), story_lit(it["out"])]))
+            L.zlist(it["obs"]), L.b(it["coded_ok"]), L.b(it["exact"]), story_lit(it["out"])]))
     return L.record("phybo_case", [tree_lit(res["tree"]), L.zlist(res["taxa"]), L.lst(items)])
 
 
@@ -522,7 +557,8 @@ BITS = {0: "correspondence: model output differs from implementation output",
         4: "C08: all leaves below the common ancestor are present but the result is not the single gain there",
         5: "exhaustive enumeration of labellings disagrees with the dynamic programme",
         6: "some node carries both a gain and a loss event",
-        7: "PhyBo: a pattern does not have one entry per taxon"}
+        7: "PhyBo: a pattern does not have one entry per taxon",
+        8: "PhyBo: the pattern get_paps stored differs from the presence/absence/missing derived from the rows"}
 
 
 def nontrivial(case, res):
